@@ -97,6 +97,36 @@ Example C10_example_race :
     get_thread (threads s) 3 = Some th3 /\ t_resp th3 = Some (RErr ERevertOccurring) /\ v_revs s = [0].
 Proof. vm_compute. eexists. eexists. repeat split. Qed.
 
+(* ---- an idempotency key reused for the revert of another transaction is refused ([is_outcome_of]) -------------------- *)
+(* RevertTransaction checks "already reverted" (under its reservation) before the key lookup: when a revert request
+   has looked its key up and found an entry, that entry (on disk, carrying the key) does not revert the request's
+   target -- it is not the outcome of this request, and the next step refuses it ([RErr EKeyReused]).  So a revert is
+   never answered from the key; before the repair the entry found was replayed whatever it reverted *)
+Theorem C10_revert_never_replays : forall s, reachable s -> forall t th e,
+  get_thread (threads s) t = Some th -> t_pc th = PIkLookup (Some e) -> rq_kind (t_req th) = KRevert ->
+  In e (persisted s) /\ e_ik e = rq_ik (t_req th) /\ is_outcome_of (t_req th) e = false.
+Proof. exact e2_revert_never_replays. Qed.
+Print Assumptions C10_revert_never_replays.
+
+(* transactions 0, 1, 2 on disk; request 3 reverts transaction 1 under key 5; request 4 reverts transaction 2 under
+   the same key: [RErr EKeyReused], transaction 2 is not reverted, exactly one revert entry, nothing in flight, no
+   event for it, key and reservation free again.  Request 5 retries the SAME revert (transaction 1, key 5): it is
+   answered [EAlreadyReverted] -- no second effect (the check precedes the key lookup: C10_revert_never_replays) *)
+Example C10_key_reuse_other_revert :
+  exists s th3 th4 th5, run init e2_c10_reuse = Some s /\
+    map (fun e => (e_owner e, e_ik e, e_txid e, e_reverts e)) (persisted s) =
+      [(0, 0%N, Some 0, None); (1, 0%N, Some 1, None); (2, 0%N, Some 2, None); (3, 5%N, Some 3, Some 1)] /\
+    v_pending s = [] /\ v_batch s = None /\ v_iks s = [] /\ v_revs s = [] /\
+    is_reverted (persisted s) 1 = true /\ is_reverted (persisted s) 2 = false /\
+    count_where (fun e => match e_reverts e with Some _ => true | None => false end) (persisted s) = 1 /\
+    get_thread (threads s) 3 = Some th3 /\ get_thread (threads s) 4 = Some th4 /\ get_thread (threads s) 5 = Some th5 /\
+    t_req th4 = e2_revk 5 2 /\ t_req th5 = t_req th3 /\
+    t_resp th3 = Some (ROk (Some 3)) /\
+    t_resp th4 = Some (RErr EKeyReused) /\ t_entry th4 = None /\
+    t_resp th5 = Some (RErr EAlreadyReverted) /\ t_entry th5 = None /\
+    map ev_tid (published s) = [0; 1; 2; 3].
+Proof. exact e2_c10_key_reuse_other_revert. Qed.
+
 (* ---- cancellation of a request's context (ACancel / AResumeCancelled) ------------------------------------------------ *)
 (* a revert request that waits for its account locks and whose context is done gives up: it gives the revert
    reservation back and nothing is stored -- the transaction can still be reverted by a later request *)
